@@ -4,8 +4,10 @@
 set -u
 cd /verif
 git -C /repo diff --quiet || { echo "/repo has uncommitted changes"; exit 2; }
-out=/verif/selftest/RESULTS.tsv; : > $out; rc_all=0
-for d in /verif/selftest/R-*; do
+out=/verif/selftest/RESULTS.tsv; rc_all=0
+# usage: tools/run_selftest.sh [R-<hash> ...]   (default: all canaries, RESULTS.tsv rewritten)
+if [ $# -gt 0 ]; then dirs=""; for a in "$@"; do dirs="$dirs /verif/selftest/$a"; done; else dirs=$(ls -d /verif/selftest/R-*); : > $out; fi
+for d in $dirs; do
   [ -f $d/patch.diff ] || continue
   props=$(python3 -c "import json;print(' '.join(json.load(open('$d/meta.json'))['must_fail_properties']))")
   if ! git -C /repo apply --check $d/patch.diff 2>/dev/null; then echo -e "$(basename $d)\t-\tPATCH-CONFLICT" | tee -a $out; continue; fi
